@@ -466,7 +466,7 @@ func genEvent(r *core.Rand, prev byte, big bool, allowEmptySeqData bool) ref.Eve
 }
 
 // genAPIHist draws a builder history.
-func genAPIHist(r *core.Rand, tier string, max32 bool) *APIHist {
+func genAPIHist(r *core.Rand, tier string, max32 bool, allowHuge ...bool) *APIHist {
 	h := &APIHist{Ctor: r.Weighted(50, 35, 15)}
 	if r.Chance(1, 4) {
 		h.FPS = byte(r.PickInt(24, 25, 29, 30))
@@ -476,7 +476,15 @@ func genAPIHist(r *core.Rand, tier string, max32 bool) *APIHist {
 	}
 	h.NoRS = r.Chance(1, 3)
 	big := tier == "thorough" && r.Chance(1, 6)
+	// now and then one track body crosses 65535 bytes (chunk length needs a third byte)
+	hugeTrack := -1
+	if len(allowHuge) > 0 && allowHuge[0] && r.Chance(1, 60) {
+		hugeTrack = 0
+	}
 	nTracks := r.PickInt(1, 1, 1, 2, 2, 3, 4, 6)
+	if hugeTrack == 0 {
+		hugeTrack = r.Intn(nTracks)
+	}
 	maxEv := r.PickInt(0, 1, 3, 8, 20, 40)
 	if tier == "thorough" && r.Chance(1, 5) {
 		maxEv = 150
@@ -490,6 +498,14 @@ func genAPIHist(r *core.Rand, tier string, max32 bool) *APIHist {
 			earlyAt = r.Intn(nEv)
 		}
 		var prev byte
+		if t == hugeTrack {
+			n := r.PickInt(65520, 65536, 70000, 131072)
+			pl := ref.Event{Kind: ref.Meta, Status: 0xFF, MetaType: 0x01, Data: r.Bytes(n)}
+			if r.Chance(1, 2) {
+				pl = ref.Event{Kind: ref.Sysex, Status: 0xF0, Data: append(r.Data7(n), 0xF7)}
+			}
+			h.Ops = append(h.Ops, APIOp{Op: "add", Delta: genDelta(r, max32), Msgs: []core.Hex{pl.LibBytes()}})
+		}
 		for e := 0; e < nEv; {
 			if e == earlyAt {
 				h.Ops = append(h.Ops, APIOp{Op: "close", Delta: genDelta(r, max32)})
